@@ -420,7 +420,7 @@ def collect(tier: str, rnd: random.Random, workdir: str, rep) -> list:
     jobs += random_jobs(rnd, 1500 if tier == "quick" else 15000)
     jobs += concurrent_write_jobs(tier, workdir, rep)
     ctx = multiprocessing.get_context("fork")
-    with ctx.Pool(16) as pool:
+    with ctx.Pool(16, initializer=common.limit_worker) as pool:
         return pool.map(run_commands, jobs, chunksize=64)
 
 
